@@ -36,11 +36,15 @@ class C12(Cfg):
                   "mutation accepted locally has every row accepted by such a peer and a row refused by the peers makes the local mutation refuse. The statement "
                   "was FALSE in the direction 'accepted locally, refused by every peer' for three local defects (#1 nested sub-entity, #2 departing room, #3a re-signed source row: "
                   "decide-checked witnesses; fixed in /repo since, replays kept as regression cases) and still is for #3b (own reference deleted at a foreign row). The row-level "
-                  "agreement holds for any switch values when the row does not change room. The model pair is tied to /repo by the run.")
+                  "agreement holds for any switch values when the row does not change room and no reference of another author is removed. "
+                  "References and deletion records are theorems too (mutation trees of any depth): C12_change_verdict (a change is accepted locally IFF the peer accepts its row AND every deletion record it sends), "
+                  "C12_accepted_references_reach_peers, C12_accepted_records_reach_peers, C12_delete_node_verdict (any switches, both sides), C12_delete_ref_verdict (local verdict = peer's verdict on the re-signed row AND the record), "
+                  "each against the ingest model's edgeAccepted / edgeDelAccepted / nodeDelAccepted / validateNode for a peer holding the same rooms, rows and references; the proof attempt found a further divergence "
+                  "(C12_breaks_refRemovalRightOnRowAuthor: references of other authors removed by a mutation of an own row). The model pair is tied to /repo by the run.")
     level_note = ("Trusted: Lean kernel; models LocalWrite.lean (this engine) and Ingest.lean (engine `ingest`, C02), each tied by its own correspondence run; "
                   "here additionally the pair is run together. Not covered: values refused by the data model on one side only (explicit null, Json scalars — DESIGN #14, "
-                  "engine `lang`), the size limit (same predicate on both sides, not exercised), references and deletion records whose acceptance rule differs "
-                  "from the row rule (reported by the oracle when they make the two sides disagree).")
+                  "engine `lang`), the size limit (same predicate on both sides, not exercised). The theorems on references and records assume normalised rights (all-rows grants own-rows: "
+                  "EntityRight::new, applied on every construction path since be6bedc) and name what the peer must hold (the removed reference with its author, the source row).")
     trusted_base = [
         "models LocalWrite.lean and Ingest.lean, tied by the correspondence run (dv-room mode=fn peer=1 vs dmodel_room)",
         "harness/room/src/bench.rs: builds what a peer receives from the real MutationQuery/DeletionQuery values (wire round trip, slot assignment as synchronise_day does)",
